@@ -64,7 +64,13 @@ def confirm(prop, m):
     wt = os.path.join(SEED, prop)
     d = os.path.join(OUT, prop + '.out', m)
     res = {'property': prop, 'seed': m, 'worktree': wt}
-    demo = DEMOS.get((prop, m), STD).replace('$WT', wt)
+    override = os.path.join(d, 'CONFIRM_CMD')
+    if os.path.exists(override):
+        demo = open(override).read().strip().replace('$WT', wt)
+    elif OUT == SEED:
+        demo = DEMOS.get((prop, m), STD).replace('$WT', wt)
+    else:
+        demo = STD.replace('$WT', wt)
     res['demo_cmd'] = 'cd %s && %s' % (d, demo)
     sh('git checkout -- .', wt)
     ok, out, dt = build(wt)
